@@ -44,6 +44,8 @@ fn shape_for(base: &str, q: usize) -> Any {
         "PointZ" => Any::PointZ(PointZ::new(v, 1.0, 2.0, 3.0)),
         // no measures: every m is NO_DATA
         "MultipointZ" => Any::MultipointZ(MultipointZ::new(vec![PointZ::new(v, 1.0, 2.0, NO_DATA), PointZ::new(v + 0.5, 2.0, 3.0, NO_DATA), PointZ::new(v, 3.0, 4.0, NO_DATA)])),
+        // the second pair's shape has a NaN ordinate (a gap in a GPS track): a shape like any other
+        "PolylineNaN" => Any::Polyline(Polyline::new(vec![Point::new(v, 0.0), Point::new(v, if q == 1 { f64::NAN } else { 1.0 }), Point::new(v + 1.0, 2.0)])),
         "PolygonM" => Any::PolygonM(PolygonM::new(PolygonRing::Outer(vec![PointM::new(v, 0.0, NO_DATA), PointM::new(v, 1.0, NO_DATA), PointM::new(v + 1.0, 1.0, NO_DATA), PointM::new(v, 0.0, NO_DATA)]))),
         "Polyline" => Any::Polyline(Polyline::new(vec![Point::new(v, 0.0), Point::new(v, 1.0 + v)])),
         _ => Any::Point(Point::new(v, 0.5)),
@@ -519,11 +521,12 @@ pub fn oracle_c08_roundtrip(base: &str, n: usize) -> Verdict {
         Ok(r) => r,
         Err(e) => return Verdict::fail("pairs-panic", e),
     };
-    if run.results.iter().any(|r| r != "ok") {
-        return Verdict::fail("pairs-write-refused", format!("{} {} pairs: results {:?}", n, base, run.results));
-    }
-    if counts(&run) != (n, n, n) {
-        return Verdict::fail("pairs-counts", format!("{} {} pairs written: (shp records, shx entries, dbf rows) = {:?}", n, base, counts(&run)));
+    // a refused pair is tolerated (the property speaks of failing calls); what it may not do is
+    // leave the files out of step
+    let accepted: Vec<usize> = run.results.iter().enumerate().filter(|(_, r)| *r == "ok").map(|(i, _)| i).collect();
+    let n_ok = accepted.len();
+    if counts(&run) != (n_ok, n_ok, n_ok) {
+        return Verdict::fail("pairs-counts", format!("{} {} pairs offered, results {:?}: (shp records, shx entries, dbf rows) = {:?}", n, base, run.results, counts(&run)));
     }
     let r = catch_unwind(AssertUnwindSafe(|| -> Result<(), String> {
         for with in [true, false] {
@@ -540,9 +543,9 @@ pub fn oracle_c08_roundtrip(base: &str, n: usize) -> Verdict {
                 };
                 got.push((q, idx));
             }
-            let want: Vec<(usize, usize)> = (0..n).map(|i| (i, i)).collect();
+            let want: Vec<(usize, usize)> = accepted.iter().map(|i| (*i, *i)).collect();
             if got != want {
-                return Err(format!("{} {} pairs (index: {}): the reader returns (shape, row) = {:?}", n, base, with, got));
+                return Err(format!("{} {} pairs (index: {}), accepted {:?}: the reader returns (shape, row) = {:?}", n, base, with, accepted, got));
             }
         }
         Ok(())
@@ -701,7 +704,7 @@ pub fn cases_dbf(tier: &str, rng: &mut Rng, stats: &mut Stats, out: &mut Out) {
             }
         }
     }
-    for n in [0usize, 1, 2, 5] {
+    for n in [0usize, 1, 2, 5, 1100] {
         let id = out.oracle_only_id();
         out.verdict(&id, &format!("scenario path-pairs {}", n), oracle_c08_path(n));
     }
@@ -715,8 +718,8 @@ pub fn cases_dbf(tier: &str, rng: &mut Rng, stats: &mut Stats, out: &mut Out) {
             out.verdict(&id, &format!("scenario paged {} {} {}", base, n, k), oracle_c08_paged(base, n, k));
         }
     }
-    for base in ["MultipointZ", "PolygonM", "PointZ", "Polyline"] {
-        for n in [1usize, 3] {
+    for base in ["MultipointZ", "PolygonM", "PointZ", "Polyline", "PolylineNaN"] {
+        for n in [1usize, 3, 6] {
             let id = out.oracle_only_id();
             out.verdict(&id, &format!("scenario pairs-roundtrip {} {}", base, n), oracle_c08_roundtrip(base, n));
         }
